@@ -268,6 +268,9 @@ def run(run):
     for ck in C10.check_selection_helpers(run, E10, pid='C11'):
         fails += ck.failed
     finish_engine(E10, run)
+    # ... and group labels with get_unique_inverse / get_unique_unsorted (assumed by the split / average contracts above)
+    from contracts.common import discharge_unique_inverse
+    fails += discharge_unique_inverse(run, 'C11')
     run.trust('np.argsort(kind="stable") returns the stable sorting permutation; num_index / subset_descriptor contracts (C10 K6/K7) '
               'are uninterpreted at these call sites; their own bodies are under contract in C10 (C10/num_index, C10/bool_index, '
               'C10/subset_descriptor: discharged for all columns / values / index sequences)')
